@@ -19,8 +19,19 @@ theorem TokensWF.head {t : Token} {ts : List Token} (h : TokensWF (t :: ts)) : T
 
 /-! ### tokenizer -/
 
+theorem mem_takeWhile_imp' {p : Char → Bool} {c : Char} : ∀ {l : Str}, c ∈ l.takeWhile p → p c = true
+  | [], h => by cases h
+  | d :: ds, h => by
+    rw [List.takeWhile] at h
+    split at h
+    · rename_i hd
+      rcases List.mem_cons.mp h with rfl | h
+      · exact hd
+      · exact mem_takeWhile_imp' h
+    · cases h
+
 theorem cutIdentifier_valid {s ident r : Str} (h : cutIdentifier s = .ok (ident, r)) : ValidLabel ident := by
-  unfold cutIdentifier at h
+  simp only [cutIdentifier] at h
   split at h
   · cases h
   · split at h
@@ -30,7 +41,7 @@ theorem cutIdentifier_valid {s ident r : Str} (h : cutIdentifier s = .ok (ident,
       subst h3
       refine ⟨?_, by omega, ?_⟩
       · intro e; rw [e] at h2; exact h2 rfl
-      · intro c hc; exact (List.mem_takeWhile_imp hc)
+      · intro c hc; exact mem_takeWhile_imp' hc
 
 theorem cutQuoted_safe {q : Char} {s v r : Str} (h : cutQuoted q s = .ok (v, r)) : q ∉ v := by
   unfold cutQuoted at h
@@ -39,13 +50,13 @@ theorem cutQuoted_safe {q : Char} {s v r : Str} (h : cutQuoted q s = .ok (v, r))
   · injection h with h; injection h with h3 h4
     subst h3
     intro hm
-    have := List.mem_takeWhile_imp hm
+    have := mem_takeWhile_imp' hm
     simp at this
 
 theorem nextOperator_wf {s r : Str} {tok : Token} (h : nextOperator s = .ok (tok, r)) : TokWF tok := by
   unfold nextOperator at h
   repeat' split at h
-  all_goals first | cases h | (injection h with h; injection h with h1 h2; subst h1; trivial)
+  all_goals (cases h <;> simp [TokWF])
 
 theorem nextWord_wf {s r : Str} {tok : Token} (h : nextWord s = .ok (tok, r)) : TokWF tok := by
   unfold nextWord at h
@@ -74,49 +85,66 @@ theorem nextWord_wf {s r : Str} {tok : Token} (h : nextWord s = .ok (tok, r)) : 
 theorem nextToken_wf {l : Bool} {c : Char} {cs r : Str} {tok : Token}
     (h : nextToken l c cs = .ok (tok, r)) : TokWF tok := by
   unfold nextToken at h
-  split at h
-  · injection h with h; injection h with h1 h2; subst h1; trivial
-  split at h
-  · injection h with h; injection h with h1 h2; subst h1; trivial
-  split at h
-  · cases hq : cutQuoted '"' cs with
-    | error e => simp [hq, Except.map] at h
+  by_cases h1 : c = '('
+  · rw [if_pos h1] at h; cases h; simp [TokWF]
+  rw [if_neg h1] at h
+  by_cases h2 : c = ')'
+  · rw [if_pos h2] at h; cases h; simp [TokWF]
+  rw [if_neg h2] at h
+  by_cases h3 : c = '"'
+  · rw [if_pos h3] at h
+    cases hq : cutQuoted '"' cs with
+    | error e => rw [hq] at h; cases h
     | ok p =>
       obtain ⟨v, r'⟩ := p
-      simp only [hq, Except.map] at h
-      injection h with h; injection h with h1 h2; subst h1
+      rw [hq] at h
+      cases h
       intro hd; exact absurd hd (cutQuoted_safe hq)
-  split at h
-  · cases hq : cutQuoted '\'' cs with
-    | error e => simp [hq, Except.map] at h
+  rw [if_neg h3] at h
+  by_cases h4 : c = '\''
+  · rw [if_pos h4] at h
+    cases hq : cutQuoted '\'' cs with
+    | error e => rw [hq] at h; cases h
     | ok p =>
       obtain ⟨v, r'⟩ := p
-      simp only [hq, Except.map] at h
-      injection h with h; injection h with h1 h2; subst h1
+      rw [hq] at h
+      cases h
       intro _; exact cutQuoted_safe hq
-  split at h
-  · injection h with h; injection h with h1 h2; subst h1; trivial
-  split at h
-  · injection h with h; injection h with h1 h2; subst h1; trivial
-  split at h
-  · injection h with h; injection h with h1 h2; subst h1; trivial
-  split at h
-  · split at h
-    · injection h with h; injection h with h1 h2; subst h1; trivial
+  rw [if_neg h4] at h
+  by_cases h5 : c = '{'
+  · rw [if_pos h5] at h; cases h; simp [TokWF]
+  rw [if_neg h5] at h
+  by_cases h6 : c = '}'
+  · rw [if_pos h6] at h; cases h; simp [TokWF]
+  rw [if_neg h6] at h
+  by_cases h7 : c = ','
+  · rw [if_pos h7] at h; cases h; simp [TokWF]
+  rw [if_neg h7] at h
+  by_cases h8 : c = '='
+  · rw [if_pos h8] at h
+    split at h
+    · cases h; simp [TokWF]
     · cases h
-  split at h
-  · split at h <;> (injection h with h; injection h with h1 h2; subst h1; trivial)
-  split at h
-  · split at h
-    · injection h with h; injection h with h1 h2; subst h1; trivial
+  rw [if_neg h8] at h
+  by_cases h9 : c = '!'
+  · rw [if_pos h9] at h
+    split at h <;> (cases h; simp [TokWF])
+  rw [if_neg h9] at h
+  by_cases h10 : c = '&'
+  · rw [if_pos h10] at h
+    split at h
+    · cases h; simp [TokWF]
     · cases h
-  split at h
-  · split at h
-    · injection h with h; injection h with h1 h2; subst h1; trivial
+  rw [if_neg h10] at h
+  by_cases h11 : c = '|'
+  · rw [if_pos h11] at h
+    split at h
+    · cases h; simp [TokWF]
     · cases h
-  split at h
-  · exact nextOperator_wf h
-  · exact nextWord_wf h
+  rw [if_neg h11] at h
+  cases l with
+  | true => exact nextOperator_wf h
+  | false => exact nextWord_wf h
 
 theorem tokenizeFrom_wf : ∀ (fuel : Nat) (l : Bool) (s : Str) (toks : List Token),
     tokenizeFrom fuel l s = .ok toks → TokensWF toks
@@ -158,7 +186,7 @@ theorem parseSetValues_wf : ∀ (toks : List Token), TokensWF toks →
   | [], h => by simp [parseSetValues]; exact h
   | [t], h => by
     cases t <;> simp [parseSetValues] <;> first | exact h | skip
-    exact ⟨h.head, fun _ hx => by cases hx⟩
+    exact ⟨h.head, fun _ hx => (by cases hx)⟩
   | t :: u :: ts, h => by
     cases t with
     | str v =>
@@ -174,7 +202,7 @@ theorem parseSetValues_wf : ∀ (toks : List Token), TokensWF toks →
       | _ =>
         simp only [parseSetValues]
         exact ⟨fun w hw => by simp at hw; subst hw; exact h.head, h.tail⟩
-    | _ => simp only [parseSetValues]; exact ⟨fun _ hx => by cases hx, h⟩
+    | _ => simp only [parseSetValues]; exact ⟨fun _ hx => (by cases hx), h⟩
 
 theorem parseLabelOp_wf {l : Str} (hl : ValidLabel l) {rest : List Token} (h : TokensWF rest)
     {n : Node} {rem : List Token} (hp : parseLabelOp l rest = .ok (n, rem)) : WF n ∧ TokensWF rem := by
@@ -214,13 +242,13 @@ theorem parseLabelOp_wf {l : Str} (hl : ValidLabel l) {rest : List Token} (h : T
         · cases hp
       · cases hp
     cases op <;> simp only [] at hp <;> try (cases hp; done)
-    · exact strCase .eq (fun v hv => ⟨hl, hv⟩) hp
-    · exact strCase .ne (fun v hv => ⟨hl, hv⟩) hp
-    · exact setCase .inSet (fun vs h1 h2 => ⟨hl, h1, h2⟩) hp
-    · exact setCase .notInSet (fun vs h1 h2 => ⟨hl, h1, h2⟩) hp
-    · exact strCase .contains (fun v hv => ⟨hl, hv⟩) hp
-    · exact strCase .startsWith (fun v hv => ⟨hl, hv⟩) hp
-    · exact strCase .endsWith (fun v hv => ⟨hl, hv⟩) hp
+    · exact strCase .eq (fun v hv => by rw [WF]; exact ⟨hl, hv⟩) hp
+    · exact strCase .ne (fun v hv => by rw [WF]; exact ⟨hl, hv⟩) hp
+    · exact setCase .inSet (fun vs h1 h2 => by rw [WF]; exact ⟨hl, h1, h2⟩) hp
+    · exact setCase .notInSet (fun vs h1 h2 => by rw [WF]; exact ⟨hl, h1, h2⟩) hp
+    · exact strCase .contains (fun v hv => by rw [WF]; exact ⟨hl, hv⟩) hp
+    · exact strCase .startsWith (fun v hv => by rw [WF]; exact ⟨hl, hv⟩) hp
+    · exact strCase .endsWith (fun v hv => by rw [WF]; exact ⟨hl, hv⟩) hp
 
 /-- What the loops need to know about the operation parser. -/
 def OpWF (op : List Token → PResult) : Prop :=
@@ -258,7 +286,7 @@ theorem andRest_wf {op : List Token → PResult} (hop : OpWF op) : ∀ (fuel : N
     · rename_i heq; cases heq
     · cases h
     · injection h with h; injection h with h1 h2; subst h1 h2
-      exact ⟨fun _ hm => by cases hm, htoks⟩
+      exact ⟨fun _ hm => (by cases hm), htoks⟩
   | succ fuel ih =>
     intro toks ns rem htoks h
     unfold andRest at h
@@ -281,7 +309,7 @@ theorem andRest_wf {op : List Token → PResult} (hop : OpWF op) : ∀ (fuel : N
           · exact h2.1 m hm
     · rename_i heq; cases heq
     · injection h with h; injection h with h1 h2; subst h1 h2
-      exact ⟨fun _ hm => by cases hm, htoks⟩
+      exact ⟨fun _ hm => (by cases hm), htoks⟩
 
 theorem parseAndWith_wf {op : List Token → PResult} (hop : OpWF op) (fuel : Nat) : OpWF (parseAndWith op fuel) := by
   intro toks n rem htoks h
@@ -309,7 +337,7 @@ theorem orRest_wf {op : List Token → PResult} (hop : OpWF op) (fuelAnd : Nat) 
     · rename_i heq; cases heq
     · cases h
     · injection h with h; injection h with h1 h2; subst h1 h2
-      exact ⟨fun _ hm => by cases hm, htoks⟩
+      exact ⟨fun _ hm => (by cases hm), htoks⟩
   | succ fuel ih =>
     intro toks ns rem htoks h
     unfold orRest at h
@@ -332,7 +360,7 @@ theorem orRest_wf {op : List Token → PResult} (hop : OpWF op) (fuelAnd : Nat) 
           · exact h2.1 m hm
     · rename_i heq; cases heq
     · injection h with h; injection h with h1 h2; subst h1 h2
-      exact ⟨fun _ hm => by cases hm, htoks⟩
+      exact ⟨fun _ hm => (by cases hm), htoks⟩
 
 theorem parseOrWith_wf {op : List Token → PResult} (hop : OpWF op) (fuel : Nat) : OpWF (parseOrWith op fuel) := by
   intro toks n rem htoks h
@@ -388,7 +416,7 @@ theorem parseOperation_wf : ∀ fuel : Nat, OpWF (parseOperation fuel) := by
         · cases hr
 
 /-- MAIN: every tree the parser returns is well-formed. -/
-theorem parse_wf {s : Str} {t : Node} (h : parse s = .ok t) : WF t := by
+theorem parse_wf_aux {s : Str} {t : Node} (h : parse s = .ok t) : WF t := by
   unfold parse at h
   split at h
   · cases h
